@@ -74,6 +74,12 @@ pub fn cfg_for(scn: Scenario, t: &mut Tape, extra: u64) -> RunCfg {
             c.p_cancel = 0;
             c.p_partial_write = [300, 700, 950][t.choose(3) as usize];
             c.p_frag_read = [300, 700, 950][t.choose(3) as usize];
+            if k == 1 && t.chance(1, 3) {
+                // timed variant: a keep-alive runs and some writes of the fragmented run take
+                // simulated time (the whole-write run takes none)
+                c.keepalive_s = 1 + t.choose(2) as u16;
+                c.p_slow_write = 150;
+            }
             if k == 2 {
                 // fragments arrive with time gaps while the keep-alive timer runs: the library's
                 // own deadline fires between fragments of one packet
@@ -358,10 +364,14 @@ fn exec_script(session: &mut minimq::Session<'_>, script: &[SStep]) {
                 SStep::Poll => {}
                 SStep::Reconnect => reconnect = true,
                 SStep::Disconnect => {
+                    // a cancelled disconnect() is re-issued; the sixth attempt is not cancelled any
+                    // more, so that the disconnect completes in both executions
                     let mut tries = 0;
                     loop {
                         tries += 1;
+                        with(|w| w.no_cancel = tries >= 6);
                         let r = do_disconnect(&mut conn, &DiscSpec { reason: None, props: None });
+                        with(|w| w.no_cancel = false);
                         if r != Res::Cancelled || tries >= 6 {
                             break;
                         }
@@ -602,6 +612,7 @@ fn cancel_twin() {
 /// C15 (random): fragmentation must not change results, deliveries or outbound bytes.
 fn frag_twin() {
     let (base, vals) = run_script_world(false);
+    let base_cut = with(|w| w.cut);
     let seed = with(|w| w.seed);
     let first = second_world(vals, Some(crate::make_sched(seed)));
     let script = with(|w| gen_script(w, false));
@@ -609,7 +620,50 @@ fn frag_twin() {
     with_session(&cfg, |s| exec_script(s, &script));
     let twin = with(|w| observe(w));
     absorb(first);
-    compare_frag(&base, &twin);
+    // partial writes (and, in the timed variant, writes that take simulated time) damaged the
+    // outbound stream although the whole-write run was fine
+    let corrupted = with(|w| {
+        if w.cut && !base_cut {
+            let c01: Option<String> = w.violations.iter().find(|v| v.prop == "C01" && (v.sig.contains("packet-inside-packet") || v.sig.contains("malformed") || v.sig.contains("bad-framing"))).map(|v| v.sig.clone());
+            if let Some(sig) = c01 {
+                // (operation names differ between scripts: keep rule and packet kinds only)
+                let tail: String = sig.trim_start_matches("C01/").split('/').map(|p| if p.starts_with("op=") { p.split(',').filter(|x| !x.starts_with("op=")).collect::<Vec<_>>().join(",") } else { p.to_string() }).collect::<Vec<_>>().join("/");
+                w.violate_force(
+                    "C15",
+                    format!("stream-corrupted-under-partial-writes/{tail}"),
+                    "the run with partial/slow writes corrupted the outbound byte stream; the run with whole writes did not".into(),
+                );
+                return true;
+            }
+        }
+        false
+    });
+    if corrupted {
+        return;
+    }
+    if cfg.keepalive_s == 0 {
+        compare_frag(&base, &twin);
+        return;
+    }
+    // timed variant: keep-alive traffic depends on how long the writes took; compare what must
+    // not depend on it
+    with(|w| {
+        w.probe("twin_fragmented_with_slow_writes");
+        if w.cut {
+            return;
+        }
+        if base.delivered != twin.delivered {
+            w.violate("C15", "deliveries-differ/slow-writes".into(), format!("whole-write run delivered {} messages, run with slow partial writes {}", base.delivered.len(), twin.delivered.len()));
+        }
+        let non_ping = |o: &TwinObs| -> Vec<String> { o.keys.iter().flatten().filter(|k| *k != "PINGREQ").cloned().collect() };
+        if non_ping(&base) != non_ping(&twin) {
+            w.violate("C15", "outbound-packets-differ/slow-writes".into(), format!("whole writes: {:?}; slow partial writes: {:?}", non_ping(&base), non_ping(&twin)));
+        }
+        let ops = |o: &TwinObs| -> Vec<String> { o.results.iter().filter(|r| !r.starts_with("poll:")).cloned().collect() };
+        if ops(&base) != ops(&twin) {
+            w.violate("C15", "results-differ/slow-writes".into(), format!("whole writes: {:?}; slow partial writes: {:?}", ops(&base), ops(&twin)));
+        }
+    });
 }
 
 fn compare_frag(base: &TwinObs, twin: &TwinObs) {
